@@ -8,6 +8,7 @@ mod c03;
 mod c08;
 mod c10;
 mod c12;
+mod c15;
 mod c16;
 mod c17;
 mod grms;
@@ -27,6 +28,7 @@ fn rerun(w: &Value) -> Option<Outcome> {
         "c20_u8" => Some(c20::run_u8(w["input"]["kind"].as_str()?, w["input"]["n"].as_u64()? as usize)),
         "c03_expect" => Some(c03::run(w["input"]["body"].as_str()?, w["input"]["expect"].as_u64().map(|x| x as usize), w["input"]["expectrr"].as_u64().map(|x| x as usize))),
         "c10_api" => Some(c10::run(w["input"]["kind"].as_str()?, w["input"]["grammar"].as_str()?)),
+        "c15_numbering" => Some(c15::run(w["input"]["grammar"].as_str()?, 200)),
         "c08_span" => Some(c08::run(w["input"]["grammar"].as_str()?, w["input"]["input"].as_str()?)),
         "c17_sets" => Some(c17::run(w["input"]["grammar"].as_str()?, w["input"]["what"].as_str()?)),
         "c16_table" => Some(c16::run(w["input"]["grammar"].as_str()?)),
@@ -40,7 +42,7 @@ fn search(unit: &str, tag: &str, tier: &str) -> Option<Value> {
         "c19_queries" => c19::search(tag, tier),
         "c12_header" => c12::search(tag, tier),
         "c08_reduce" => c08::search(tag, tier),
-        "c10_grammar" => c10::search(tag, tier),
+        "c10_grammar" => if tag.starts_with("C15") { c15::search(tag, tier) } else { c10::search(tag, tier) },
         "c03_expect" => c03::search(tag, tier),
         "c17_firsts" | "c17_follows" | "c17_haspath" => c17::search(unit, tag, tier),
         "c16_new" | "c16_codec" => c16::search(tag, tier),
